@@ -1065,6 +1065,15 @@ class Pass3(CompilePass):
                 'A function with the same name exists',
                 node=node.lvalue)
 
+    def process_for_block_pre(self, node):
+        # like an assignment target (see above): the name of a
+        # FUNCTION has become a call, the name of a CONST its value
+        if not isinstance(node.var, Lvalue):
+            raise CompileError(
+                EC.DUPLICATE_DEFINITION,
+                'FOR variable is the name of a function or constant',
+                node=node.var)
+
     def process_select_block_pre(self, node):
         vtype = node.value.type
         for case, body in node.case_blocks:
